@@ -455,6 +455,18 @@ def convention(ctx, cv):
                 unknown = True
         if known.get('msg_none'):
             continue
+        # a value (None included) may be delivered only on a path that has
+        # compared the reply's signature with the declared one
+        rs = ('param', cv.params()[2])
+        checked = any(contains(c, lambda x: x == rs) for c, pol in p.cond)
+        ctx.ob('C08.D5', cv.qualname, 'signature-checked-before-delivery',
+               checked,
+               'a value is delivered on a path that never looked at the '
+               'declared return signature: a reply that does not match it '
+               '(e.g. an empty reply to a call declared to return a string) '
+               'is delivered as a value instead of failing with RemoteError',
+               {'value': term_str(p.value)[:60],
+                'path': [(term_str(c)[:50], pol) for c, pol in p.cond[:6]]})
         v = p.value
         n += 1
         if v == NONE:
